@@ -10,6 +10,7 @@ for k in a b c; do
   if [ "$R" = "r2" ]; then t=$(echo $k | tr abc cde); fi
   if [ "$R" = "r3" ]; then t=$(echo $k | tr abc fgh); fi
   if [ "$R" = "r4" ]; then t=$(echo $k | tr abc ijk); fi
+  if [ "$R" = "r5" ]; then t=$(echo $k | tr abc lmn); fi
   dst=/verif/seeded/$ID$t
   mkdir -p $dst
   cp -r $src/. $dst/
